@@ -29,6 +29,13 @@ func script(class string, durMs int) string {
 		return "syntax error("
 	case "loop":
 		return "while (true) {}"
+	case "loopcatch":
+		// never finishes AND catches whatever is thrown at it: being stopped must not be something a script can catch
+		return "for (;;) { try { while (true) {} } catch (e) {} }"
+	case "loopfor":
+		// a for statement with no test, no update and an empty body: the interpreter evaluates nothing per
+		// iteration, so it never looks at its interrupt channel (known finding KF-C14-empty-for)
+		return "for (;;) {}"
 	case "slow":
 		return fmt.Sprintf("var t0 = new Date().getTime(); while (new Date().getTime() - t0 < %d) {}; 'slept'", durMs)
 	}
@@ -114,6 +121,7 @@ func main() {
 		}
 		if lim > 0 {
 			cases = append(cases, cse{"loop", lim, 0})
+			cases = append(cases, cse{"loopcatch", lim, 0})
 			cases = append(cases, cse{"slow", lim, int(lim/time.Millisecond) / 4})     // well under the limit
 			cases = append(cases, cse{"slow", lim, int(lim/time.Millisecond)*3 + 200}) // well over it
 		} else {
@@ -123,10 +131,21 @@ func main() {
 	// which limit applies: with a small system default, a location whose own limit is negative has none,
 	// and a location without an own limit gets the default
 	special := []cse{{"slow", -1, 450}, {"slow", 0, 450}, {"value", -1, 0}}
+	// last of all, once: the script nothing stops (each one leaves a spinning goroutine behind, which must
+	// not disturb the timing of the other cases)
+	unstoppable := []cse{{"loopfor", 50 * time.Millisecond, 0}}
 	for r := 0; r < *reps; r++ {
-		for ci, c := range append(append([]cse{}, cases...), special...) {
+		all := append(append([]cse{}, cases...), special...)
+		if r == *reps-1 {
+			all = append(all, unstoppable...)
+		}
+		for ci, c := range all {
+			h := hard
+			if c.class == "loopfor" {
+				h = 2 * time.Second
+			}
 			defaultMs := 60000
-			if ci >= len(cases) {
+			if ci >= len(cases) && ci < len(cases)+len(special) {
 				core.SystemParameters.DefaultJavascriptTimeout = 150 * time.Millisecond
 				defaultMs = 150
 			} else {
@@ -148,7 +167,7 @@ func main() {
 						continue
 					}
 					// accepted: then it has to fail on its node when an event runs it
-					o := guard(hard, func() outcome {
+					o := guard(h, func() outcome {
 						fr, _ := loc.ProcessEvent(ctx, core.Map{"go": 1.0})
 						o := outcome{}
 						if fr == nil || len(fr.Children) != 1 || len(fr.Children[0].Children) != 1 {
@@ -176,7 +195,7 @@ func main() {
 				var o outcome
 				switch path {
 				case "run":
-					o = guard(hard, func() outcome {
+					o = guard(h, func() outcome {
 						bs := core.Bindings{"x": 1.0, "y": "a"}
 						v, err := loc.RunJavascript(ctx, src, nil, &bs, nil)
 						o := outcome{err: err != nil, val: v}
@@ -197,7 +216,7 @@ func main() {
 					if _, err := loc.AddRule(ctx, "r", core.Map(rule)); err != nil {
 						panic(err)
 					}
-					o = guard(hard, func() outcome {
+					o = guard(h, func() outcome {
 						fr, _ := loc.ProcessEvent(ctx, core.Map{"x": 1.0, "y": "a"})
 						o := outcome{}
 						if fr == nil || len(fr.Children) != 1 || len(fr.Children[0].Children) != 1 {
@@ -250,7 +269,7 @@ func main() {
 					if _, err := loc2.AddRule(ctx2, "r", core.Map(rule)); err != nil {
 						panic(err)
 					}
-					o2 := guard(hard, func() outcome {
+					o2 := guard(h, func() outcome {
 						fr, _ := loc2.ProcessEvent(ctx2, core.Map{"x": 1.0, "y": "a"})
 						o := outcome{}
 						if fr == nil || len(fr.Children) != 1 || len(fr.Children[0].Children) != 1 {
